@@ -193,7 +193,7 @@ var msgFrags = []fragGen{
 	func(rng *rand.Rand, m string, _ int) Frag {
 		// the same value in another JSON type / spelling: a lenient match is tolerated by the oracle
 		id, i := pick(rng, []string{`"@ID@"`, "@ID@.0", "@ID@e0"})
-		return Frag{Class: "id-type-variant", Variant: fmt.Sprintf("v%d", i), Msgs: []string{foreignFrame(m, id)}, SameIDOdd: true}
+		return Frag{Class: "id-type-variant", Variant: fmt.Sprintf("v%d", i), Msgs: []string{`{"jsonrpc":"2.0","id":` + id + `,"result":` + resultBody(m, "variant") + `}`}, SameIDOdd: true}
 	},
 	func(rng *rand.Rand, m string, _ int) Frag {
 		return Frag{Class: "id-missing", Variant: "v0", Msgs: []string{foreignFrame(m, "")}, Foreign: true}
@@ -851,7 +851,7 @@ func buildersFor(kind string) []builder {
 			{"endpoint-missing", "close-at-once", nil, true, true, false, true},
 			{"endpoint-missing", "comments-then-close", []string{": hi\n\n", ": hi\n\n"}, true, true, false, true},
 			{"endpoint-missing", "message-then-close", []string{"event: message\ndata: " + validNotif + "\n\n"}, true, true, false, true},
-			{"endpoint-garbage-url", "unparsable-then-close", []string{"event: endpoint\ndata: ://\x7f%zz\n\n"}, true, true, false, true},
+			{"endpoint-missing", "unparsable-url-then-close", []string{"event: endpoint\ndata: ://\x7f%zz\n\n"}, true, true, false, true},
 			{"endpoint-garbage-url", "unparsable-then-valid", []string{"event: endpoint\ndata: ://%zz\n\n", ep}, false, false, false, false},
 			{"endpoint-garbage-url", "parsable-nonsense", []string{"event: endpoint\ndata: not a url at all\n\n"}, false, false, true, false},
 			{"endpoint-garbage-url", "empty-data", []string{"event: endpoint\ndata: \n\n", ep}, false, false, false, false},
